@@ -15,7 +15,7 @@ verus! {
 
 /// opaque collaborator: dictionary lookup (C04 decides it); ASSUMED here: keys are valid UTF-8, so every entry
 /// found at offset i of a UTF-8 text starts and ends on character boundaries and is non-empty
-pub struct LexiconSet<'a> { _p: core::marker::PhantomData<&'a ()> }
+#[verifier::external_body] pub struct LexiconSet<'a> { _p: core::marker::PhantomData<&'a ()> }
 impl<'a> LexiconSet<'a> {
     uninterp spec fn sp_lookup(&self, input: Seq<u8>, offset: int) -> Seq<LexiconEntry>;
     /// R14: `for entry in self.lexicon.lookup(bytes, i)` over the collected entries (same order)
@@ -146,7 +146,7 @@ spec fn match_ok(m: ReMatch, hay: Seq<u8>) -> bool {
     m.s < m.e <= hay.len() && is_char_boundary(hay, m.s as int) && is_char_boundary(hay, m.e as int)
 }
 impl From<RegexErr> for SudachiError { #[verifier::external_body] fn from(e: RegexErr) -> SudachiError { SudachiError::Other } }
-pub struct RegexErr { _p: () }
+#[verifier::external_body] pub struct RegexErr { _p: () }
 /// `SENTENCE_BREAKER.find_iter(&s)` collected, in order
 #[verifier::external_body]
 fn re_sentence_breaker_find_iter(s: &str) -> (r: Vec<Result<ReMatch, RegexErr>>)
